@@ -114,8 +114,8 @@ func (st *randState) fill(p []byte) {
 
 // SimRand is the process-global device.
 type SimRand struct {
-	cur      *randState           // sequential / serialized mode
-	byGoid   map[int64]*randState // parallel mode (read-only during rounds)
+	cur      *randState                // sequential / serialized mode
+	byGoid   map[int64]*taskRandHolder // parallel mode (the map is read-only during rounds)
 	parallel atomic.Bool
 	idle     *randState // serves reads made outside any step (should not happen)
 	idleUsed int
@@ -127,12 +127,11 @@ func installSimRand() { rand.Reader = simRand }
 
 func (s *SimRand) Read(p []byte) (int, error) {
 	if s.parallel.Load() {
-		st := s.byGoid[goid()]
-		if st == nil {
-			s.idleUsed++
-			return s.idle.read(p)
+		h := s.byGoid[goid()]
+		if h == nil || h.cur == nil {
+			panic(harnessError{"random source read by an unknown goroutine in parallel mode"})
 		}
-		return st.read(p)
+		return h.cur.read(p)
 	}
 	st := s.cur
 	if st == nil {
@@ -149,11 +148,26 @@ func (s *SimRand) Read(p []byte) (int, error) {
 // begin installs a script for one step and returns its state.
 func (s *SimRand) begin(sc RandScript) *randState {
 	st := newRandState(sc)
+	if s.parallel.Load() {
+		if h := s.byGoid[goid()]; h != nil {
+			h.cur = st
+			return st
+		}
+	}
+	st.yieldOn = schedHook != nil
 	s.cur = st
 	return st
 }
 
-func (s *SimRand) end() { s.cur = nil }
+func (s *SimRand) end() {
+	if s.parallel.Load() {
+		if h := s.byGoid[goid()]; h != nil {
+			h.cur = nil
+			return
+		}
+	}
+	s.cur = nil
+}
 
 func goid() int64 {
 	var buf [64]byte
